@@ -15,11 +15,10 @@ namespace NauyacaVerif.C17
 open Url
 
 theorem defaultPort_tie : (1965 : Nat) = Gen.defaultPort := by decide
-/-- the URL is built from the handler's own upstream and the request's parsed path (source shape, extracted) -/
-theorem urlParts_tie : Gen.proxyUrlParts = [[115, 101, 108, 102, 46, 117, 112, 115, 116, 114, 101, 97, 109], [112, 97, 116, 104]] := by decide
-/-- `path = request.path` (the parsed path, not `raw_url`) and `upstream_url += f"?{request.query}"` -/
-theorem pathSource_tie : Gen.proxyPathSource = [114, 101, 113, 117, 101, 115, 116, 46, 112, 97, 116, 104] := by decide
-theorem querySource_tie : Gen.proxyQuerySource = [102, 39, 63, 123, 114, 101, 113, 117, 101, 115, 116, 46, 113, 117, 101, 114, 121, 125, 39] := by decide
+/- Where the URL's parts come from (`self.upstream`, the parsed `request.path`, `request.query`) used to be three extracted
+   source-shape ties here.  They are subsumed by the translation of the URL construction (`Translated.upstreamUrl_eq`): the translator
+   knows exactly these names, any other source (e.g. `request.raw_url`) is not translatable and fails the obligation
+   `translate:upstreamUrl`; unlike the extracted shapes the translation survives the code being split into private helpers. -/
 
 /-- whatever path and query the client sends, the URL the proxy fetches has the configured authority:
     host, port and user-info are functions of the authority, so the request cannot steer the proxy -/
